@@ -2622,6 +2622,12 @@ class sptensor:
                     i[n] = np.array(keyCopy[n], ndmin=2)
                 addsubs[:, n] = ttb.khatrirao(*i).transpose()[:]
 
+            # An index list may name an index more than once: every position of the
+            # region is assigned (and stored) once, in the order first met
+            _, first_met = np.unique(addsubs, axis=0, return_index=True)
+            if first_met.size < addsubs.shape[0]:
+                addsubs = addsubs[np.sort(first_met)]
+
             if self.subs.size > 0:
                 # Replace existing values
                 loc = tt_intersect_rows(self.subs, addsubs)
